@@ -54,7 +54,7 @@ fn collect_refs(v: &Value, out: &mut BTreeSet<String>) {
 }
 
 /// A schema with every `$ref` replaced by the definition it points to (cycles cut by the distance to the enclosing
-/// occurrence), `discriminator.mapping` dropped (its targets are the `oneOf` members) and site descriptions kept:
+/// occurrence, uncounted), `discriminator.mapping` dropped (its targets are the `oneOf` members) and site descriptions kept:
 /// what the schema *says*, independent of how definitions are named or where alias boundaries fall.
 pub fn canon(v: &Value, root: &Value, stack: &mut Vec<String>, fuel: &mut usize) -> Value {
     if *fuel == 0 {
@@ -65,8 +65,9 @@ pub fn canon(v: &Value, root: &Value, stack: &mut Vec<String>, fuel: &mut usize)
         Value::Array(a) => Value::Array(a.iter().map(|x| canon(x, root, stack, fuel)).collect()),
         Value::Object(o) => {
             if let Some(r) = o.get("$ref").and_then(|r| r.as_str()) {
-                if let Some(i) = stack.iter().rposition(|x| x == r) {
-                    return json!({"$cycle": stack.len() - i});
+                if stack.iter().any(|x| x == r) {
+                    // a back edge; how many named hops lie in between depends on alias boundaries, so it is not counted
+                    return json!({"$cycle": true});
                 }
                 let target = r.strip_prefix('#').and_then(|p| root.pointer(p));
                 return match target {
